@@ -230,6 +230,9 @@ type svcCase struct {
 	Steps    []svcStep `json:"steps"`
 	Variants []string  `json:"variants"`
 	Schemes  []int     `json:"schemes"`
+	// InitCombos: run the filter-combination suite on the initial state too (the check sets it for a few histories per
+	// caller: the initial state and its expected views are the same for all histories of one caller)
+	InitCombos bool `json:"initCombos"`
 }
 
 type fakeTasks struct{ taskmodel.TaskService }
@@ -609,6 +612,7 @@ type finder struct {
 	evals int
 	drift map[string]bool
 	viol  string
+	full  bool // also run the filter-combination suite
 }
 
 // one returned resource: must be a member of the readable set; kind names the set
@@ -650,8 +654,228 @@ func (f *finder) bucket(call string, b *influxdb.Bucket) (kind string, a int) {
 	return "bucket", a
 }
 
+// filter shapes: every single field and every PAIR of fields of the filter structs the API has, over the ids / names known in
+// this world - consistent or not (org of one resource with the id of another, an id with another resource's name ...). The
+// expected result of an inconsistent filter is left open; whatever comes back must be readable by the caller.
+func (f *finder) combos() {
+	w, ctx := f.w, f.w.cctx
+	ip := func(id platform.ID) *platform.ID { return &id }
+	sp := func(s string) *string { return &s }
+	// ---- value pools
+	var bids []platform.ID
+	var bnames []string
+	seenName := map[string]bool{}
+	for _, id := range w.real["buckets"] {
+		bids = append(bids, id)
+	}
+	sysOf := map[int]platform.ID{}
+	for id, oa := range f.d.sysIDs {
+		if cur, ok := sysOf[oa]; !ok || id < cur {
+			sysOf[oa] = id
+		}
+	}
+	for _, id := range sysOf {
+		bids = append(bids, id)
+	}
+	for _, id := range bids {
+		if n, ok := f.d.bucketName[id]; ok && !seenName[n] {
+			seenName[n] = true
+			bnames = append(bnames, n)
+		}
+	}
+	var oids []platform.ID
+	var onames []string
+	for a, id := range w.real["orgs"] {
+		oids = append(oids, id)
+		if n, ok := f.d.orgName[a]; ok {
+			onames = append(onames, n)
+		}
+	}
+	var uids []platform.ID
+	var unames []string
+	for a, id := range w.real["users"] {
+		uids = append(uids, id)
+		if n, ok := f.d.userName[a]; ok {
+			unames = append(unames, n)
+		}
+	}
+	var aids []platform.ID
+	var toks []string
+	for a, id := range w.real["authorizations"] {
+		aids = append(aids, id)
+		if t := w.tok[a]; t != "" {
+			toks = append(toks, t)
+		}
+	}
+	// ---- buckets: BucketFilter{ID, Name, OrganizationID, Org}
+	type bsetter func(*influxdb.BucketFilter)
+	var bfields [][]bsetter
+	{
+		var a, b, c, d []bsetter
+		for _, v := range bids {
+			v := v
+			a = append(a, func(x *influxdb.BucketFilter) { x.ID = ip(v) })
+		}
+		for _, v := range bnames {
+			v := v
+			b = append(b, func(x *influxdb.BucketFilter) { x.Name = sp(v) })
+		}
+		for _, v := range oids {
+			v := v
+			c = append(c, func(x *influxdb.BucketFilter) { x.OrganizationID = ip(v) })
+		}
+		for _, v := range onames {
+			v := v
+			d = append(d, func(x *influxdb.BucketFilter) { x.Org = sp(v) })
+		}
+		bfields = [][]bsetter{a, b, c, d}
+	}
+	tryB := func(flt influxdb.BucketFilter) {
+		if bs, _, err := w.bsvc.FindBuckets(ctx, flt, influxdb.FindOptions{Limit: 500}); err == nil {
+			for _, b := range bs {
+				f.bucket("FindBuckets"+bfStr(flt), b)
+			}
+		}
+		if b, err := w.bsvc.FindBucket(ctx, flt); err == nil && b != nil {
+			f.bucket("FindBucket"+bfStr(flt), b)
+		}
+	}
+	for i := range bfields {
+		for _, s1 := range bfields[i] {
+			var flt influxdb.BucketFilter
+			s1(&flt)
+			tryB(flt)
+			for j := i + 1; j < len(bfields); j++ {
+				for _, s2 := range bfields[j] {
+					flt2 := flt
+					s2(&flt2)
+					tryB(flt2)
+				}
+			}
+		}
+	}
+	// ---- organizations: OrganizationFilter{ID, Name, UserID}
+	tryO := func(flt influxdb.OrganizationFilter, what string) {
+		if os, _, err := w.osvc.FindOrganizations(ctx, flt); err == nil {
+			for _, o := range os {
+				f.returned("FindOrganizations"+what, "org", w.abs["orgs"][o.ID])
+			}
+		}
+		if o, err := w.osvc.FindOrganization(ctx, flt); err == nil && o != nil {
+			f.returned("FindOrganization"+what, "org", w.abs["orgs"][o.ID])
+		}
+	}
+	for _, u := range uids {
+		tryO(influxdb.OrganizationFilter{UserID: ip(u)}, "{user}")
+		for _, o := range oids {
+			tryO(influxdb.OrganizationFilter{UserID: ip(u), ID: ip(o)}, "{user,id}")
+		}
+		for _, n := range onames {
+			tryO(influxdb.OrganizationFilter{UserID: ip(u), Name: sp(n)}, "{user,name}")
+		}
+	}
+	for _, o := range oids {
+		for _, n := range onames {
+			tryO(influxdb.OrganizationFilter{ID: ip(o), Name: sp(n)}, "{id,name}")
+		}
+	}
+	// ---- users: UserFilter{ID, Name}
+	for _, u := range uids {
+		for _, n := range unames {
+			flt := influxdb.UserFilter{ID: ip(u), Name: sp(n)}
+			if us, _, err := w.usvc.FindUsers(ctx, flt); err == nil {
+				for _, x := range us {
+					f.returned("FindUsers{id,name}", "user", w.abs["users"][x.ID])
+				}
+			}
+			if x, err := w.usvc.FindUser(ctx, flt); err == nil && x != nil {
+				f.returned("FindUser{id,name}", "user", w.abs["users"][x.ID])
+			}
+		}
+	}
+	for _, n := range unames {
+		if us, _, err := w.usvc.FindUsers(ctx, influxdb.UserFilter{Name: sp(n)}); err == nil {
+			for _, x := range us {
+				f.returned("FindUsers{name}", "user", w.abs["users"][x.ID])
+			}
+		}
+	}
+	// ---- authorizations: AuthorizationFilter{Token, ID, UserID, User, OrgID, Org}
+	type asetter func(*influxdb.AuthorizationFilter)
+	var afields [][]asetter
+	{
+		var a, b, c, d, e, g []asetter
+		for _, v := range aids {
+			v := v
+			a = append(a, func(x *influxdb.AuthorizationFilter) { x.ID = ip(v) })
+		}
+		for _, v := range toks {
+			v := v
+			b = append(b, func(x *influxdb.AuthorizationFilter) { x.Token = sp(v) })
+		}
+		for _, v := range uids {
+			v := v
+			c = append(c, func(x *influxdb.AuthorizationFilter) { x.UserID = ip(v) })
+		}
+		for _, v := range unames {
+			v := v
+			d = append(d, func(x *influxdb.AuthorizationFilter) { x.User = sp(v) })
+		}
+		for _, v := range oids {
+			v := v
+			e = append(e, func(x *influxdb.AuthorizationFilter) { x.OrgID = ip(v) })
+		}
+		for _, v := range onames {
+			v := v
+			g = append(g, func(x *influxdb.AuthorizationFilter) { x.Org = sp(v) })
+		}
+		afields = [][]asetter{a, b, c, d, e, g}
+	}
+	tryA := func(flt influxdb.AuthorizationFilter) {
+		if as, _, err := w.wasvc.FindAuthorizations(ctx, flt); err == nil {
+			for _, x := range as {
+				f.returned("FindAuthorizations(filter pair)", "auth", w.abs["authorizations"][x.ID])
+			}
+		}
+	}
+	for i := range afields {
+		for _, s1 := range afields[i] {
+			var flt influxdb.AuthorizationFilter
+			s1(&flt)
+			tryA(flt)
+			for j := i + 1; j < len(afields); j++ {
+				for _, s2 := range afields[j] {
+					flt2 := flt
+					s2(&flt2)
+					tryA(flt2)
+				}
+			}
+		}
+	}
+}
+
+func bfStr(b influxdb.BucketFilter) string {
+	var parts []string
+	if b.ID != nil {
+		parts = append(parts, "ID="+b.ID.String())
+	}
+	if b.Name != nil {
+		parts = append(parts, "Name="+*b.Name)
+	}
+	if b.OrganizationID != nil {
+		parts = append(parts, "OrganizationID="+b.OrganizationID.String())
+	}
+	if b.Org != nil {
+		parts = append(parts, "Org="+*b.Org)
+	}
+	return "{" + strings.Join(parts, ",") + "}"
+}
+
 // every Find* of the wrapped services, as the caller
 func (f *finder) run() {
+	if f.full {
+		f.combos()
+	}
 	w, ctx := f.w, f.w.cctx
 	// ---- buckets
 	for a, id := range w.real["buckets"] {
@@ -909,10 +1133,26 @@ func runSvcOne(c *svcCase, variant string, scheme int) rt.Result {
 		case "CreateAuth":
 			a := &influxdb.Authorization{OrgID: w.real["orgs"][s.Org], UserID: w.real["users"][s.User], Description: fmt.Sprintf("v%d", k),
 				Token: fmt.Sprintf("tok-created-%d", s.New)}
+			var grant []influxdb.Permission
 			for _, p := range s.Grant {
-				a.Permissions = append(a.Permissions, w.perm(p))
+				grant = append(grant, w.perm(p))
 			}
-			cerr = w.wasvc.CreateAuthorization(w.cctx, a)
+			// the grant is a SET in the specification; the API takes a list. A request the specification refuses is tried
+			// in every rotation of the list and of its reverse (a refused call changes nothing, so each is one more probe of
+			// the same step); a request it admits is sent in one order that alternates with step and id scheme.
+			orders := grantOrders(grant)
+			if s.Exp.Authz {
+				orders = orders[(k+scheme)%len(orders):][:1]
+			}
+			for _, g := range orders {
+				try := *a
+				try.Permissions = g
+				cerr = w.wasvc.CreateAuthorization(w.cctx, &try)
+				evals++
+				if cerr == nil {
+					break
+				}
+			}
 			created = "authorizations"
 			w.tok[s.New] = a.Token
 		case "UpdateAuth":
@@ -967,7 +1207,9 @@ func runSvcOne(c *svcCase, variant string, scheme int) rt.Result {
 			prev = cur
 		}
 		// contract 3: Find* return only readable resources
-		f := &finder{w: w, d: prev, vis: &s.Exp.Vis, drift: drift}
+		// the filter-combination suite runs whenever the store changed (and on the initial state when asked): after a call that
+		// changed nothing the views are those of the previous step, which the base suite re-checks anyway
+		f := &finder{w: w, d: prev, vis: &s.Exp.Vis, drift: drift, full: (s.A == "init" && c.InitCombos) || (s.A != "init" && cerr == nil)}
 		f.run()
 		evals += f.evals
 		if f.viol != "" {
@@ -978,6 +1220,29 @@ func runSvcOne(c *svcCase, variant string, scheme int) rt.Result {
 	partial := (len(last.Rb) > 0 && len(last.Rb) < len(prev.buckets)) || (len(last.Ra) > 0 && len(last.Ra) < len(prev.auths)) ||
 		(len(last.Ro) > 0 && len(last.Ro) < len(prev.orgs)) || (len(last.Ru) > 0 && len(last.Ru) < len(prev.users))
 	return finish(rt.Result{OK: true, Nontrivial: nOK > 0 || partial})
+}
+
+// grantOrders: all rotations of the list and of its reverse (both orders for two elements), without duplicates.
+func grantOrders(g []influxdb.Permission) [][]influxdb.Permission {
+	if len(g) < 2 {
+		return [][]influxdb.Permission{g}
+	}
+	var out [][]influxdb.Permission
+	seen := map[string]bool{}
+	rev := make([]influxdb.Permission, len(g))
+	for i := range g {
+		rev[len(g)-1-i] = g[i]
+	}
+	for _, base := range [][]influxdb.Permission{g, rev} {
+		for r := 0; r < len(base); r++ {
+			o := append(append([]influxdb.Permission{}, base[r:]...), base[:r]...)
+			if k := fmt.Sprint(o); !seen[k] {
+				seen[k] = true
+				out = append(out, o)
+			}
+		}
+	}
+	return out
 }
 
 func stepStr(s *svcStep) string {
